@@ -99,6 +99,22 @@ def run(ctx):
                  "amp": True, "fix": True, "quoted": False}
             return sum(1 for k in d if o[k] != d[k]) <= 1
         cases = [c for c in cases if tuple(c["u"]) in keepu or near_default(c["o"])]
+    # platform_aware and infer_redirection alternate above: make sure every row meets every single flip (and the default
+    # vector) under both values of each
+    base_o = {"sort": True, "auth": True, "ts": True, "index": True, "proto": True, "sub": True, "frag": "except-routing",
+              "amp": True, "fix": True, "quoted": False, "lang": False, "lower": False}
+    for u in sorted(set(tuple(c["u"]) for c in cases)):
+        text = dec(list(u)).lower()
+        if "facebook" in text or "youtube" in text:
+            continue
+        vecs = [dict(base_o)]
+        for k in ("sort", "auth", "ts", "index", "proto", "sub", "amp", "fix", "quoted"):
+            o = dict(base_o)
+            o[k] = not o[k]
+            vecs.append(o)
+        for o in vecs:
+            for infer in (False, True):
+                cases.append({"u": list(u), "o": o, "infer": infer, "platform": True})
     # the repository's own normalize_url test inputs: default options and every single flip
     DEF = {"sort": True, "auth": True, "ts": True, "index": True, "proto": True, "sub": True, "frag": "except-routing",
            "amp": True, "fix": True, "quoted": False, "lang": False, "lower": False}
